@@ -256,6 +256,14 @@ func Guard(watchdog time.Duration, f func()) (res string) {
 	case s := <-done:
 		return s
 	case <-time.After(watchdog):
+	}
+	// Second look: after a stall of the whole process (a loaded machine) the timer and the
+	// call's completion become ready together and select picks one at random, which produced a
+	// false "hang" once (notes/C08-requests.md).  A real hang is still there one watchdog later.
+	select {
+	case s := <-done:
+		return s
+	case <-time.After(watchdog):
 		return "hang"
 	}
 }
